@@ -52,6 +52,8 @@ type ColInstance struct {
 	MaxRows  int            `json:"maxrows"`
 	SegLimit int            `json:"seglimit"` // 0: repository default
 	MaxSegs  int            `json:"maxsegs"`  // max over the series of the number of segments it has in all ordered files together
+	IllForm  bool           `json:"illformed"` // some ordered chunk has a non-final segment of another size than max-rows-per-segment, or a longer one
+	SegChg   string         `json:"segchange,omitempty"` // the files were written under this other max-rows-per-segment
 	Series   []SeriesLayout `json:"series"`
 	Replaced []string       `json:"replaced"`
 	Created  []string       `json:"created"`
@@ -185,6 +187,7 @@ type colCtx struct {
 	in       *interner
 	mode     string
 	segLimit int
+	segChg   string
 }
 
 func (c *colCtx) boundaryRows() int {
@@ -340,7 +343,17 @@ func (c *colCtx) runOp(op string, emit func(*ColInstance)) {
 			}
 		}
 	}
-	saveBefore(c.dir, &beforeFile{MaxSegs: inst.MaxSegs, Op: op, Hist: strings.Join(append(append([]string{}, c.hist...), op), " "), Mode: c.mode,
+	for _, s := range snapB {
+		for _, l := range s.lay {
+			for i, seg := range l.T {
+				if len(seg) > c.maxRows || (i < len(l.T)-1 && len(seg) != c.maxRows) {
+					inst.IllForm = true
+				}
+			}
+		}
+	}
+	inst.SegChg = c.segChg
+	saveBefore(c.dir, &beforeFile{IllForm: inst.IllForm, SegChg: c.segChg, MaxSegs: inst.MaxSegs, Op: op, Hist: strings.Join(append(append([]string{}, c.hist...), op), " "), Mode: c.mode,
 		MaxRows: c.maxRows, SegLimit: c.segLimit, Dump: flatDump(before), Bad: len(bad0) > 0})
 	var err error
 	switch op {
@@ -508,6 +521,8 @@ type beforeFile struct {
 	MaxRows  int         `json:"maxrows"`
 	SegLimit int         `json:"seglimit"`
 	MaxSegs  int         `json:"maxsegs"`
+	IllForm  bool        `json:"illformed"`
+	SegChg   string      `json:"segchange"`
 	Dump     [][4]string `json:"dump"`
 	Bad      bool        `json:"bad"`
 }
@@ -530,11 +545,8 @@ func saveBefore(dir string, b *beforeFile) {
 func colCaseDir(work string, idx int) string { return filepath.Join(work, fmt.Sprintf("col%d", idx)) }
 
 // spawnColCase runs case idx in a child process and emits its instances; a dead child is judged by the crash oracle.
-func spawnColCase(idx int, seed uint64, work string, segLimit bool, emit func(*ColInstance)) {
-	flag := "0"
-	if segLimit {
-		flag = "1"
-	}
+func spawnColCase(idx int, seed uint64, work string, kind int, emit func(*ColInstance)) {
+	flag := fmt.Sprint(kind)
 	cmd := exec.Command(os.Args[0], "colchild", fmt.Sprint(idx), fmt.Sprint(seed), flag)
 	cmd.Env = append(os.Environ(), "VERIF_WORK="+filepath.Dir(work))
 	var so, se bytes.Buffer
@@ -577,6 +589,7 @@ func spawnColCase(idx int, seed uint64, work string, segLimit bool, emit func(*C
 		return
 	}
 	inst.Op, inst.Hist, inst.Mode, inst.MaxRows, inst.SegLimit, inst.MaxSegs = bf.Op, bf.Hist, bf.Mode, bf.MaxRows, bf.SegLimit, bf.MaxSegs
+	inst.IllForm, inst.SegChg = bf.IllForm, bf.SegChg
 	before := map[key]string{}
 	for _, e := range bf.Dump {
 		var k key
@@ -613,7 +626,8 @@ func spawnColCase(idx int, seed uint64, work string, segLimit bool, emit func(*C
 	emit(inst)
 }
 
-func runColCase(idx int, r *gen.Rand, work string, segLimit bool, emit func(*ColInstance)) {
+func runColCase(idx int, r *gen.Rand, work string, kind int, emit func(*ColInstance)) {
+	segLimit := kind == 1
 	c := &colCtx{idx: idx, r: r, lastOrd: map[uint64]int64{}, in: &interner{ids: map[string]int{}}, maxT: 100}
 	c.dir = colCaseDir(work, idx)
 	c.shardDir = filepath.Join(c.dir, "shard")
@@ -625,6 +639,9 @@ func runColCase(idx int, r *gen.Rand, work string, segLimit bool, emit func(*Col
 	immutable.SetMaxRowsPerSegment4TsStore(c.maxRows)
 	c.conf = immutable.NewTsStoreConfig()
 	flag := gen.Pick(r, []int32{util.StreamingCompact, util.StreamingCompact, util.NonStreamingCompact, util.AutoCompact})
+	if kind == 2 && flag == util.AutoCompact {
+		flag = util.StreamingCompact
+	}
 	c.mode = map[int32]string{util.StreamingCompact: "stream", util.NonStreamingCompact: "nonstream", util.AutoCompact: "auto"}[flag]
 	sc := config.GetStoreConfig()
 	savedRec := sc.Compact.CompactRecovery
@@ -655,14 +672,15 @@ func runColCase(idx int, r *gen.Rand, work string, segLimit bool, emit func(*Col
 	for i := 0; i < nFiles; i++ {
 		c.writeFile(true)
 	}
-	if v := os.Getenv("C03_SEGCHANGE"); v != "" {
-		// experiment: the files were written under another max-rows-per-segment than the one in force now (the option
-		// was changed and the server restarted)
+	if kind == 2 {
+		// the files were written under another max-rows-per-segment than the one in force now (the option was changed
+		// and the server restarted): usually a smaller one (inner segments shorter than max-rows), sometimes a bigger one
 		_ = c.st.Close()
-		nm := map[int]int{8: 16, 16: 8}[c.maxRows]
-		if v == "down" {
+		nm := 2 * c.maxRows
+		if r.Chance(1, 4) {
 			nm = c.maxRows / 2
 		}
+		c.segChg = fmt.Sprint(c.maxRows)
 		c.hist = append(c.hist, fmt.Sprintf("maxrows%d->%d", c.maxRows, nm))
 		c.maxRows = nm
 		immutable.SetMaxRowsPerSegment4TsStore(nm)
